@@ -179,7 +179,7 @@ def part_b(ctx):
         ns = r.randint(1, 4)
         samples = [f"s{k}" for k in range(ns)]
         ploidy = r.choice([1, 2, 2])
-        carry = r.choice([None, None, "LAA", "LPL"]) if i % 3 == 0 else None
+        carry = [None, "LAA", "LPL", "LAA"][(i // 3) % 4] if i % 3 == 0 else None   # stratified: every run has files carrying LAA / LPL
         hdr = list(hdr0)
         if carry == "LAA":
             hdr.append('##FORMAT=<ID=LAA,Number=.,Type=Integer,Description="l">')
@@ -245,7 +245,9 @@ def part_b(ctx):
         extra = set(a.array_keys()) - set(b.array_keys())
         if not extra <= {"call_LAA", "call_LPL"}:
             ctx.fail(doc, dict(extra=sorted(extra)), "enabling local alleles adds arrays other than the local-allele fields")
-        if carry is None and "call_LAA" in a:
+        # a file that carries its own (valid) LAA -- '.' for a call without alternate alleles -- and PL but no LPL gets its LPL
+        # computed from the carried LAA: the expectation is the same projection
+        if carry in (None, "LAA") and "call_LAA" in a and "call_LPL" in a:
             laa, lpl = a["call_LAA"][:], a["call_LPL"][:]
             width = lpl.shape[2] if lpl.ndim == 3 else 1
             lpl = lpl.reshape(lpl.shape[0], lpl.shape[1], -1)
@@ -255,7 +257,7 @@ def part_b(ctx):
                     alts = sorted({x for x in gt if x not in (None, 0)})
                     row = [int(x) for x in laa[v, s]]
                     gtz = [(-1 if x is None else x) for x in gt]
-                    if ctx.model.call(1702, [nalt, gtz, row]) != 1:
+                    if carry is None and ctx.model.call(1702, [nalt, gtz, row]) != 1:
                         ctx.fail(dict(doc, record=v, sample=s), dict(gt=gt, laa=row), f"stored LAA of genotype {gt} is {row}")
                     got = [int(x) for x in lpl[v, s]]
                     want = ctx.model.call(1703, [ploidy, width, alts, [] if pl is None else [pl]])
